@@ -2,3 +2,4 @@ INIT Init
 NEXT Next
 CONSTANTS
   MaxLen = 4
+  CloneRange = TRUE
